@@ -50,14 +50,26 @@ BUNDLE_BASE = {'SLICING_PRMS': {'dt_scale': 100, 'distance_threshold': 1.5}}
 
 
 def bundle_scenes():
-    """Two time-separated single hits + a thick slice (three recent hits 500 ft apart)."""
+    """Two time-separated small sets + a thick slice (three recent hits 500 ft apart). Each small set is ONE hit, or several hits that are
+    one and the same point of the (time, height) plane: two ceilometers at the same stamp and height, a first and a second hit of one
+    measurement at the same height, or three ceilometers."""
     out = []
     hs = (920.0, 950.0, 1500.0, 2050.0, 2080.0)
-    for h1, h2 in itertools.product(hs, hs):
-        if h1 == h2:
-            continue
-        rows = [['a', -900.0, h1, 1], ['a', -450.0, h2, 1], ['a', -20.0, 2000.0, 1], ['a', -10.0, 1500.0, 1], ['a', 0.0, 1000.0, 1]]
-        out.append((f'bundle:{h1:g}:{h2:g}', {'gen': 'rows', 'rows': rows}))
+
+    def small(kind, dt, h):
+        if kind == 'one':
+            return [['a', dt, h, 1]]
+        if kind == 'twin':
+            return [['a', dt, h, 1], ['b', dt, h, 1]]
+        if kind == 'typed':
+            return [['a', dt, h, 1], ['a', dt, h, 2]]
+        return [['a', dt, h, 1], ['b', dt, h, 1], ['c', dt, h, 1]]
+    for kind in ('one', 'twin', 'typed', 'triple'):
+        for h1, h2 in itertools.product(hs, hs):
+            if h1 == h2:
+                continue
+            rows = small(kind, -900.0, h1) + small(kind, -450.0, h2) + [['a', -20.0, 2000.0, 1], ['a', -10.0, 1500.0, 1], ['a', 0.0, 1000.0, 1]]
+            out.append((f'bundle:{h1:g}:{h2:g}' + ('' if kind == 'one' else ':' + kind), {'gen': 'rows', 'rows': rows}))
     return out
 
 
